@@ -33,7 +33,7 @@ func init() { hx.Register("c11", func() hx.Property { return &c11{} }) }
 type c11 struct{}
 
 type c11Case struct {
-	Kind  string         `json:"kind"` // corpus | tt | tt2 | tt3 | crd | gen | malformed
+	Kind  string         `json:"kind"` // corpus | tt | tt2 | tt3 | ttimp | crd | gen | imp | deep | malformed
 	Chart *vChart        `json:"chart"`
 	Vals  map[string]any `json:"vals"`
 }
@@ -595,6 +595,16 @@ func (*c11) Oracle(ci, oi any) []hx.Violation {
 				What: fmt.Sprintf("third-level dependency %s: enabled by the truth table = %v but rendered = %v", lf.Name, want, got)})
 		}
 	}
+	if c.Kind == "ttimp" {
+		land, want, has := c11ImportExpect(c)
+		view, _ := obs.Rendered[c.Chart.Name+"/"+probeTemplate].(map[string]any)
+		got, ok := lookupPath(view, land)
+		if ok != has || (has && !jsonEq(got, want)) {
+			vs = append(vs, hx.Violation{Sig: "C11:import-precedence",
+				What: fmt.Sprintf("the root sees %v (present=%v) at %s; by the rule (user value, else the parent's own, else the first ENABLED dependency's imported value, else nothing) it must see %v (present=%v)",
+					got, ok, strings.Join(land, "."), want, has)})
+		}
+	}
 	for _, m := range obs.Meta {
 		sig := "C11:" + strings.SplitN(m, ":", 2)[0]
 		if c.Kind == "corpus" && strings.HasPrefix(m, "global-not-delivered-to:") && strings.Contains(m, ".sub/") {
@@ -1042,7 +1052,105 @@ func (*c11) Exhaustive(tier string) []any {
 			}
 		}
 	}
+	out = append(out, c11ImportTable(tier)...)
 	return out
+}
+
+// c11ImportTable: the precedence of import-values, exhaustively: suba (as a1) and subb both export
+// data.k; each imports it or not (string form to the root, or child/parent form to "imported"),
+// each is enabled or disabled by its condition, the parent defines the landing key or not, the user
+// defines it or not.
+func c11ImportTable(tier string) []any {
+	var out []any
+	bools := []bool{true, false}
+	aliases := []string{"a1"}
+	if tier == "thorough" {
+		aliases = []string{"a1", ""}
+	}
+	for _, alias := range aliases {
+		for _, form := range []string{"str", "map"} {
+			for _, aOn := range bools {
+				for _, bOn := range bools {
+					for _, aImp := range bools {
+						for _, bImp := range bools {
+							for _, own := range bools {
+								for _, usr := range bools {
+									imp := func(on bool) []any {
+										if !on {
+											return nil
+										}
+										if form == "str" {
+											return []any{"data"}
+										}
+										return []any{map[string]any{"child": "exports.data", "parent": "imported"}}
+									}
+									land := []string{"k"}
+									if form == "map" {
+										land = []string{"imported", "k"}
+									}
+									def, uv := map[string]any{}, map[string]any{}
+									if own {
+										setPath(def, "P", land...)
+									}
+									if usr {
+										setPath(uv, "U", land...)
+									}
+									akey := "suba"
+									if alias != "" {
+										akey = alias
+									}
+									setPath(uv, aOn, akey, "enabled")
+									setPath(uv, bOn, "subb", "enabled")
+									out = append(out, c11Case{Kind: "ttimp", Vals: uv,
+										Chart: &vChart{Name: "top", Version: "1.0.0", Values: def,
+											Charts: []*vChart{
+												{Name: "suba", Version: "1.0.0", Values: map[string]any{"exports": map[string]any{"data": map[string]any{"k": "A"}}}},
+												{Name: "subb", Version: "1.0.0", Values: map[string]any{"exports": map[string]any{"data": map[string]any{"k": "B"}}}}},
+											Deps: []vDep{{Name: "suba", Version: "1.0.0", Alias: alias, Condition: akey + ".enabled", Imports: imp(aImp)},
+												{Name: "subb", Version: "1.0.0", Condition: "subb.enabled", Imports: imp(bImp)}}}})
+								}
+							}
+						}
+					}
+				}
+			}
+		}
+	}
+	return out
+}
+
+// c11ImportExpect: what the root must see at the landing key of a ttimp case: the user's value, else
+// the parent's own, else the first enabled dependency's imported value, else nothing.
+func c11ImportExpect(c c11Case) (land []string, want any, has bool) {
+	land = []string{"k"}
+	for _, d := range c.Chart.Deps {
+		for _, iv := range d.Imports {
+			if _, isMap := iv.(map[string]any); isMap {
+				land = []string{"imported", "k"}
+			}
+		}
+	}
+	if v, ok := lookupPath(c.Vals, land); ok {
+		return land, v, true
+	}
+	if v, ok := lookupPath(c.Chart.Values, land); ok {
+		return land, v, true
+	}
+	for _, d := range c.Chart.Deps {
+		on, _ := lookupPath(c.Vals, []string{c11DepKey(d), "enabled"})
+		if b, isB := on.(bool); isB && !b {
+			continue
+		}
+		if len(d.Imports) == 0 {
+			continue
+		}
+		if ch := c.Chart.child(d.Name); ch != nil {
+			if v, ok := lookupPath(ch.Values, []string{"exports", "data", "k"}); ok {
+				return land, v, true
+			}
+		}
+	}
+	return land, nil, false
 }
 
 // ---------- generator
